@@ -117,6 +117,18 @@ def sea_cases(out: Outcome, rng, n_cases: int, lines, expect) -> None:
                     out.violation(f"SEA: the {name} of two datasets requested from one generator (blocks {b1}, {b2}) is not labelled with its own block threshold", {"blocks": [b1, b2]})
                     break
         out.case({"generator": "SEA", "two_datasets": [b1, b2]})
+    # ... and each keeps its own NOISE level: a noise-free data set requested first and consumed after a fully noisy one was requested from the same generator still
+    # follows the label rule at every sample (at noise 0 the rule is exact, so 300 samples decide)
+    for b1 in (2, 4):
+        g = SEA(seed=rng.randint(0, 10**6))
+        d1 = g.generate_dataset(block=b1, noise=0.0, num_samples=300)
+        d2 = g.generate_dataset(block=rng.choice([1, 3]), noise=1.0, num_samples=5)
+        bad = next((i for i, (X, y) in enumerate(d1) if int(y) != (1 if X[0] + X[1] <= THR[b1] else 0)), None)
+        list(d2)
+        if bad is not None:
+            out.violation(f"SEA: a data set requested with noise=0 (block {b1}) and consumed after another one was requested with noise=1.0 from the same generator has sample {bad} "
+                          "labelled against the threshold rule", {"generator": "SEA", "block": b1, "kind": "two datasets, two noise levels"})
+        out.case({"generator": "SEA", "two_noise_levels": b1})
     # two live datasets of one generator pulled in an arbitrary interleaving: each `next()` consumes the global generator where it stands
     # (the model's `Synth2.seaPulls` on the recorded draws)
     for _ in range(4):
